@@ -50,3 +50,65 @@ Theorem c14_null_lookalike_quoted (v : bytes) :
 Proof. exact (null_lookalike_quoted v). Qed.
 Print Assumptions c14_null_lookalike_quoted.
 
+
+(* ---------------------------------------------------------------- properties embedded in a calibration file.
+   save_mapping pre post t: a mapping written by vnacal_save (the top-level one, or a calibration's)
+   with arbitrary other entries before and after the pair "properties" -> export t, whose keys are
+   admissible texts different from "properties".  Under the same hypotheses about libyaml, what
+   vnacal_load's parse_document (global root) and parse_calibration (per-calibration root) import
+   is t - for every tree, a null root (written as ~) and a scalar root included. *)
+Theorem c14_calfile_global_properties_rt
+        (rt : ynode -> ynode) (text_ok : bytes -> Prop)
+        (rt_scalar : forall v st, text_ok v ->
+            exists st', rt (YScalar v st) = YScalar v st'
+                        /\ (st = YPlain -> st' = YPlain)
+                        /\ (st' = YPlain -> st = YPlain \/ st = YAny))
+        (rt_mapping : forall kv, rt (YMapping kv) = YMapping (map (fun p => (rt (fst p), rt (snd p))) kv))
+        (rt_sequence : forall l, rt (YSequence l) = YSequence (map rt l))
+        (tilde_ok : text_ok [126%N]) (properties_ok : text_ok key_properties)
+        (pre post : list (bytes * ynode)) (t : node) :
+  other_keys text_ok pre -> other_keys text_ok post -> wf t -> tree_ok text_ok t ->
+  good (load_global_properties (rt (save_mapping pre post t)) NNull) t.
+Proof.
+  exact (calfile_global_properties_rt rt text_ok rt_scalar rt_mapping rt_sequence tilde_ok properties_ok pre post t).
+Qed.
+Print Assumptions c14_calfile_global_properties_rt.
+
+Theorem c14_calfile_calibration_properties_rt
+        (rt : ynode -> ynode) (text_ok : bytes -> Prop)
+        (rt_scalar : forall v st, text_ok v ->
+            exists st', rt (YScalar v st) = YScalar v st'
+                        /\ (st = YPlain -> st' = YPlain)
+                        /\ (st' = YPlain -> st = YPlain \/ st = YAny))
+        (rt_mapping : forall kv, rt (YMapping kv) = YMapping (map (fun p => (rt (fst p), rt (snd p))) kv))
+        (rt_sequence : forall l, rt (YSequence l) = YSequence (map rt l))
+        (tilde_ok : text_ok [126%N]) (properties_ok : text_ok key_properties)
+        (pre post : list (bytes * ynode)) (t : node) :
+  other_keys text_ok pre -> other_keys text_ok post -> wf t -> tree_ok text_ok t ->
+  good (load_calibration_properties (rt (save_mapping pre post t))) t.
+Proof.
+  exact (calfile_calibration_properties_rt rt text_ok rt_scalar rt_mapping rt_sequence tilde_ok properties_ok pre post t).
+Qed.
+Print Assumptions c14_calfile_calibration_properties_rt.
+
+Theorem c14_calfile_properties_rt_satisfiable (pre post : list (bytes * ynode)) (t : node) :
+  other_keys (fun _ => True) pre -> other_keys (fun _ => True) post -> wf t ->
+  good (load_global_properties (yaml_rt_ideal (save_mapping pre post t)) NNull) t /\
+  good (load_calibration_properties (yaml_rt_ideal (save_mapping pre post t))) t.
+Proof. exact (calfile_properties_rt_ideal pre post t). Qed.
+Print Assumptions c14_calfile_properties_rt_satisfiable.
+
+(* vnaproperty_import_yaml_from_string / _from_file replace whatever the root held (DP2 fixed):
+   the round trip holds for every previous content of the root *)
+Theorem c14_import_replaces_content
+        (rt : ynode -> ynode) (text_ok : bytes -> Prop)
+        (rt_scalar : forall v st, text_ok v ->
+            exists st', rt (YScalar v st) = YScalar v st'
+                        /\ (st = YPlain -> st' = YPlain)
+                        /\ (st' = YPlain -> st = YPlain \/ st = YAny))
+        (rt_mapping : forall kv, rt (YMapping kv) = YMapping (map (fun p => (rt (fst p), rt (snd p))) kv))
+        (rt_sequence : forall l, rt (YSequence l) = YSequence (map rt l))
+        (tilde_ok : text_ok [126%N]) (root t : node) :
+  wf t -> tree_ok text_ok t -> good (import_document (rt (yaml_export t)) root) t.
+Proof. exact (import_document_replaces rt text_ok rt_scalar rt_mapping rt_sequence tilde_ok root t). Qed.
+Print Assumptions c14_import_replaces_content.
